@@ -15,13 +15,13 @@ gets the `caller` of the scope it is written in), `Codegen/Attrs.lean` (`Tag._pa
 `${expr | filters}` with def calls by name, `capture(f, …)`, `caller.x(…)`, concatenations and calls as arguments of
 calls; `% if / for / while / try`, `loop`, `<%text filter>`, `return / break / continue`; **`<%def>`s – top-level,
 nested in other defs, and written inside a `<%call>` (reached as `caller.name(…)` or by name from the call's content):
-directly, below a control line of the content, or inside a nested `<%call>` of the content (mako writes all of those
-into the outer `ccall` and `Spec.callDefsOf` lists them; that the *outer* callee can reach the defs of the nested
-`<%call>` is recorded as F-C05-5 – the harness' reference renderer does not export them – and the specification here
-follows the code: if /repo takes the fix, the `.call` clauses of `callDefs` and `Spec.callDefsOf` go) – with any combination of `buffered` / `filter=` / `decorator=`;
+directly or below a control line of the content (the defs of a *nested* `<%call>` belong to that call's own `ccall`:
+since /repo 4a9e6c6 the enclosing call does not export them any more – F-C05-5, found by this check) – with any
+combination of `buffered` / `filter=` / `decorator=`;
 `<%call>` with a body and body arguments, in loops, in defs, in other call bodies; `caller.body(…)` evaluated any number
 of times; `<%block>`s rendered in place – named blocks of the template body (module-level callables) and anonymous or
-named blocks in defs and loops (closures) – with `buffered` / `filter=` like defs, entered
+named blocks in defs and loops (closures) – with `buffered` / `filter=` like defs (since /repo 248d875 the block's
+place writes what the callable returns: a buffered block shows its content, after `buffer_filters`), entered
 without content (`caller` is empty inside), sharing the loop stack of the scope they are written in; `<%include>` of
 another template of the set (its body as a callable of its own module; its named blocks and defs are that module's).**
 In the structured template block names are ≥ `blockBase` (a block is not callable by a name of the template).
@@ -35,10 +35,7 @@ NOT covered (named by the guard):
 * a `<%block>` with defs or blocks inside, directly in the content of a `<%call>` (mako writes it into `ccall` *and*
   hoists its closures into `body()`), or reading the `loop` of a `% for` around it (the guard decides "a loop is
   active" per callable; a block's closure is written before the loop is entered), and `cached=` blocks.
-* a `<%def>` *inside* a def that a `<%call>` has below a control line: mako exports it to `caller` as well (the lexer
-  hangs everything after a control line under it and `DefVisitor` descends), `Spec.callDefsOf` deliberately does not
-  list it – extending the specification there would write the lexer's accident into it.
-* two callables of the same name in one scope or one `<%call>` (Python keeps the last definition, the model the first).
+* two callables of the same name in one scope (Python keeps the last definition, the model the first).
 For those the frame-level theorems of C13 hold and the behaviour is compared on every run.  Also outside are the places
 where mako's generated code deviates from the specification, which are recorded findings (see the `…_counterexample`
 theorems): `<% return %>` inside a buffering def (F-C05-2), and `caller.x()` inside the argument list of a
@@ -46,7 +43,8 @@ theorems): `<% return %>` inside a buffering def (F-C05-2), and `caller.x()` ins
 flag `cv` of the guard only marks defs written inside a `<%call>` that do not mention `caller` (their `caller` variable
 is the enclosing `ccall` parameter); since /repo 0522f73 it excludes nothing a template can contain.  Repaired in /repo
 and now inside the guard: a `<%call>` run during the argument evaluation of another call (555117c), `caller` in defs
-written inside a `<%call>` (0522f73).
+written inside a `<%call>` (0522f73), the defs of nested `<%call>`s and of control lines in a `<%call>` (4a9e6c6: every
+def of the content, whatever it contains, is written once into the `ccall` of its own tag), buffered blocks (248d875).
 
 All theorems quantify over every template set, every crash point `k`, every fuel and every start state related
 to the specification's arguments (`RelC` / `RelW`; true of the initial state, preserved by every execution).
@@ -98,15 +96,29 @@ example : GoodAll [(sampleNested, none)] ∧
   subst hp
   decide
 
-/-- non-vacuous for the defs a `<%call>` exports from below a control line and from a nested `<%call>`: `d5` (under
-    `% if`) is reached as `caller.d5('a')` and by name from the content, `d7` (a def of the inner `<%call>`) is reached
-    by the *outer* callee as `caller.d7()`; crash point 1 is the filter of the second `d5` call -/
+/-- non-vacuous for the defs of a `<%call>` below a control line and in a nested `<%call>`: `d5` (under `% if`) is
+    reached as `caller.d5('a')` by the callee and by name from the content, `d7` (a def of the inner `<%call>`) is
+    reached by the *inner* callee as `caller.d7()` and by name from the inner content; crash point 1 is the filter of
+    the second `d5` call -/
 example : GoodAll [(sampleDeep, none)] ∧
-    (render (progOf [(sampleDeep, none)] 99) ⟨none, false⟩ 200).2.1 = "[2(na)|s|X(Is)B2(nb)]".toList ∧
-    (Spec.render ⟨[(sampleDeep, none)], 99⟩ ⟨none, false⟩ 200).2 = "[2(na)|s|X(Is)B2(nb)]".toList ∧
-    (render (progOf [(sampleDeep, none)] 1) ⟨none, false⟩ 200).2.1 = "[2(na)|s|X(Is)B".toList ∧
-    (Spec.render ⟨[(sampleDeep, none)], 1⟩ ⟨none, false⟩ 200).2 = "[2(na)|s|X(Is)B".toList := by
+    (render (progOf [(sampleDeep, none)] 99) ⟨none, false⟩ 200).2.1 = "[2(na)|X(s:Is)B2(nb)]".toList ∧
+    (Spec.render ⟨[(sampleDeep, none)], 99⟩ ⟨none, false⟩ 200).2 = "[2(na)|X(s:Is)B2(nb)]".toList ∧
+    (render (progOf [(sampleDeep, none)] 1) ⟨none, false⟩ 200).2.1 = "[2(na)|X(s:Is)B".toList ∧
+    (Spec.render ⟨[(sampleDeep, none)], 1⟩ ⟨none, false⟩ 200).2 = "[2(na)|X(s:Is)B".toList := by
   refine ⟨?_, by decide +kernel, by decide +kernel, by decide +kernel, by decide +kernel⟩
+  intro p hp
+  simp only [List.mem_singleton] at hp
+  subst hp
+  decide
+
+/-- regression example for the repaired defect F-C05-5 (/repo 4a9e6c6): a def of a *nested* `<%call>` is not exported
+    to the enclosing call – the outer callee's `caller.d7()` fails (`excNoCaller` after `[`) in the generated code and
+    in the specification alike, and the template is inside the guard (before the repair it rendered `[inner|(x)]`) -/
+example : GoodAll [(quirkOuterExport, none)] ∧
+    (render (progOf [(quirkOuterExport, none)] 99) ⟨none, false⟩ 200).1 = .exc excNoCaller ∧
+    (render (progOf [(quirkOuterExport, none)] 99) ⟨none, false⟩ 200).2.1 = "[".toList ∧
+    (Spec.render ⟨[(quirkOuterExport, none)], 99⟩ ⟨none, false⟩ 200).2 = "[".toList := by
+  refine ⟨?_, by decide +kernel, by decide +kernel, by decide +kernel⟩
   intro p hp
   simp only [List.mem_singleton] at hp
   subst hp
@@ -114,13 +126,13 @@ example : GoodAll [(sampleDeep, none)] ∧
 
 /-- non-vacuous for `<%block>` and `<%include>`: a named block of the template body, an anonymous block in a loop
     (with a loop of its own), an anonymous block in a def, and an included template with a named block of the same
-    name and a buffered block (whose content the bare call drops); with crash point 0 the filter of the first block
-    fails and its content is lost -/
+    name and a buffered block (whose content is written where the block stands: `z`, /repo 248d875); with crash point 0
+    the filter of the first block fails and its content is lost -/
 example : GoodAll [(sampleBlocks, none), (sampleIncluded, none)] ∧
     (render (progOf [(sampleBlocks, none), (sampleIncluded, none)] 99) ⟨none, false⟩ 200).2.1
-      = "a2(x[q])2(0u1i)2(0u1j)IkJ(2(2.3.0))".toList ∧
+      = "a2(x[q])2(0u1i)2(0u1j)IkzJ(2(2.3.0))".toList ∧
     (Spec.render ⟨[(sampleBlocks, none), (sampleIncluded, none)], 99⟩ ⟨none, false⟩ 200).2
-      = "a2(x[q])2(0u1i)2(0u1j)IkJ(2(2.3.0))".toList ∧
+      = "a2(x[q])2(0u1i)2(0u1j)IkzJ(2(2.3.0))".toList ∧
     (render (progOf [(sampleBlocks, none), (sampleIncluded, none)] 0) ⟨none, false⟩ 200).2.1 = "a".toList ∧
     (Spec.render ⟨[(sampleBlocks, none), (sampleIncluded, none)], 0⟩ ⟨none, false⟩ 200).2 = "a".toList ∧
     (render (progOf [(sampleBlocks, none), (sampleIncluded, none)] 99) ⟨none, false⟩ 200).1 ≠ .timeout := by
